@@ -12,7 +12,13 @@ import numpy as np
 from . import kernel
 from .kernel import H, SimKill, current
 
-REPO = '/repo/panqec/'
+def _repo_prefix():
+    import panqec
+    import os
+    return os.path.dirname(os.path.abspath(panqec.__file__)) + os.sep
+
+
+REPO = _repo_prefix()
 
 # ---------------------------------------------------------------------------
 # entropy
